@@ -312,7 +312,7 @@ def hdrScan (buf : List Byte) (off : Nat) (s : HdrScan) : R HdrScan :=
         match getFieldLen buf off rest with
         | .error e => .error e
         | .ok n =>
-          if n = 0 then hdrScan buf dflt s          -- field runs to the end of data: like any other line
+          if n = 0 then hdrScan buf dflt { s with ctL := 0 }   -- field runs to the end of data: like any other line (`ctype.len` has been set to 0 all the same)
           else if n ≤ 2 then .error .hang            -- `off += n - 2` would not advance (unreachable)
           else hdrScan buf (off + n - 2) { s with ctS := off, ctL := n }
       | .ok false =>
@@ -322,7 +322,7 @@ def hdrScan (buf : List Byte) (off : Nat) (s : HdrScan) : R HdrScan :=
           match getFieldLen buf off rest with
           | .error e => .error e
           | .ok n =>
-            if n = 0 then hdrScan buf dflt s
+            if n = 0 then hdrScan buf dflt { s with ceL := 0 }
             else if n ≤ 2 then .error .hang
             else hdrScan buf (off + n - 2) { s with ceS := off, ceL := n }
         | .ok false => hdrScan buf dflt s
